@@ -3,6 +3,7 @@ package main
 // Symbolic execution of go/ssa functions into verification conditions.
 
 import (
+	"encoding/json"
 	"fmt"
 	"math/big"
 	"go/token"
@@ -84,6 +85,7 @@ type Verifier struct {
 	bounds     map[*Term]*big.Int
 	typeTags   map[string]int
 	tagTypes   map[int]types.Type
+	tableRaw    map[string]json.RawMessage
 	usedTrusted map[string]bool
 	usedAuto    map[string]bool
 }
@@ -110,6 +112,7 @@ type FnCtx struct {
 	unrollTag string // suffix making obligation names unique inside unrolled loops
 	pureEval  bool   // evaluating the body of an opaque spec function: memory must not be read
 	assumeTag string
+	opaqueDepth int
 }
 
 type execError struct{ msg string }
